@@ -88,7 +88,7 @@ AgainEv ==
   /\ mode' = IF Ev.ret = 0 THEN "U" ELSE IF pr.ok THEN "A" ELSE "S"
   /\ IF Ev.e = "v" /\ (Ev.ret = 1) # pr.ok THEN Fail("C02", "verify's verdict differs from Layer A well-formedness")
      ELSE IF Ev.ret = 1 /\ Ev.err2 # 0 THEN Fail("C12", "error set after a successful verify or reset")
-     ELSE bad' = bad
+     ELSE bad' = IF Ev.e = "rs" /\ Ev.ret = 1 THEN "" ELSE bad      \* a successful reset is a clean start: validation resumes here
   /\ hist' = "" /\ full' = <<TRUE, FALSE>> /\ UNCHANGED <<buf, root, maxd, pr, d0, nA, nS>>
 
 \* protocol judged on the recorded answers (mode S)
@@ -169,9 +169,10 @@ CallEv ==
         ELSE bad' = bad /\ UNCHANGED <<c, mode, stk, on, allOk>>
 
 \* After a disagreement the rest of that execution is skipped (nothing is specified about a parser that has
-\* already deviated) and validation resumes at the next init event, so one trace can report several findings.
+\* already deviated) and validation resumes at the next init (or successful reset) event, so one trace can report
+\* several findings.
 Next == /\ l <= Len(Tr) /\ l' = l + 1
-        /\ IF bad # "" /\ Ev.e # "I"
+        /\ IF bad # "" /\ Ev.e # "I" /\ ~(Ev.e = "rs" /\ Ev.ret = 1)
            THEN /\ UNCHANGED <<buf, root, maxd, pr, c, mode, stk, on, allOk, prevErr, d0, bad, nA, nS, hist, full>>
                 \* a transcription starts with a reset of its own: it is specified whatever went wrong before it
                 /\ (Ev.e = "xc" /\ pr.ok /\ Ev.ret # 1 =>
